@@ -543,8 +543,6 @@ func tuningOf(c *hx.Case) dkv.VerifDBTuning {
 }
 
 func execHistory(mode string, c *hx.Case) (*hx.Result, error) {
-	caseMu.Lock()
-	defer caseMu.Unlock()
 	kgc := pInt(c, "kgc", 8)
 	n0 := pInt(c, "n0", 1)
 	nkeys := pInt(c, "nkeys", 8)
@@ -882,6 +880,13 @@ func execDeploy(c *hx.Case) (*hx.Result, error) {
 		Nontrivial: m > 1 && !ident || m != n, Tags: tags, Observed: map[string]any{"from": fmt.Sprint(from), "handles": handles}}, nil
 }
 
+// a hang of the implementation (a barrier that never returns, a compaction loop that never ends) becomes an
+// execution error of the case instead of a hang of the check; after one hang the remaining histories are skipped
+// (the stuck goroutines keep running and would distort everything that follows)
+var hung bool
+
+const watchdog = 60 * time.Second
+
 func (eng) Execute(mode string, c *hx.Case) (*hx.Result, error) {
 	switch pStr(c, "kind") {
 	case "assign":
@@ -889,7 +894,30 @@ func (eng) Execute(mode string, c *hx.Case) (*hx.Result, error) {
 	case "deploy":
 		return execDeploy(c)
 	default:
-		return execHistory(mode, c)
+		if hung {
+			return nil, fmt.Errorf("skipped: an earlier history hung the implementation")
+		}
+		type out struct {
+			r   *hx.Result
+			err error
+		}
+		ch := make(chan out, 1)
+		go func() {
+			defer func() {
+				if p := recover(); p != nil {
+					ch <- out{nil, fmt.Errorf("implementation panicked: %v", p)}
+				}
+			}()
+			r, err := execHistory(mode, c)
+			ch <- out{r, err}
+		}()
+		select {
+		case o := <-ch:
+			return o.r, o.err
+		case <-time.After(watchdog):
+			hung = true
+			return nil, fmt.Errorf("the implementation did not finish the history within %s (hang or endless background task)", watchdog)
+		}
 	}
 }
 
